@@ -27,8 +27,11 @@ type c16Table struct {
 
 func c16Model() c16Table {
 	return c16Table{
-		Accounts:    map[string]int{"expenses:food": 3, "expenses:fuel": 1, "assets:cash": 3, "Assets:Bank account": 2, "расходы:еда": 1, "equity:opening": 1},
-		Payees:      map[string]int{"shop": 3, "shopping mall": 1, "Cafe": 2, "Åke": 1},
+		// several names are used in both files, with the larger share sometimes in
+		// the root and sometimes in the included file: a total that is not the sum
+		// over the files changes the order
+		Accounts:    map[string]int{"expenses:food": 4, "expenses:fuel": 2, "assets:cash": 4, "Assets:Bank account": 3, "расходы:еда": 1, "equity:opening": 1},
+		Payees:      map[string]int{"shop": 4, "shopping mall": 1, "Cafe": 3, "Åke": 2},
 		Commodities: map[string]int{"EUR": 3, "USD": 4, "$": 1},
 		Tags:        map[string]int{"trip": 2, "kind": 1, "t2": 1},
 		TagValues:   map[string][]string{"trip": {"rome", "paris"}, "kind": {"x"}, "t2": {}},
@@ -50,6 +53,10 @@ func c16Journals() (root, inc string) {
 		"    expenses:food  1 USD",
 		"    assets:cash  -1 USD",
 		"",
+		"2001-01-04 Cafe",
+		"    expenses:fuel  1 EUR",
+		"    Assets:Bank account  -1 EUR",
+		"",
 	}
 	i := []string{
 		"2001-02-01 Cafe  ; trip:paris",
@@ -64,6 +71,12 @@ func c16Journals() (root, inc string) {
 		"    equity:opening  1 USD",
 		"",
 		"2001-02-04 Åke",
+		"",
+		"2001-02-05 shop",
+		"    expenses:food  1 USD",
+		"    assets:cash  -1 USD",
+		"",
+		"2001-02-06 Åke",
 		"",
 	}
 	return strings.Join(r, "\n"), strings.Join(i, "\n")
@@ -95,6 +108,11 @@ func c16Lines() []c16Line {
 		{Context: "tag", Prefix: "    ; "},
 		{Context: "tag", Prefix: "    expenses:food  5 EUR  ; "},
 		{Context: "tagvalue", Prefix: "    ; trip:", TagName: "trip"},
+		// characters outside the BMP before the fragment (columns in UTF-16 units)
+		{Context: "commodity", Prefix: "    expenses:🍕  5 "},
+		{Context: "payee", Prefix: "2001-03-01 (🧾7) "},
+		{Context: "tag", Prefix: "    ; note:🍕, "},
+		{Context: "tagvalue", Prefix: "    ; note:🍕, trip:", TagName: "trip"},
 	}
 }
 
